@@ -59,11 +59,14 @@ func c05Source(p c05Params) string {
 		return "nop"
 	}
 	var sb strings.Builder
+	macroLen := map[string]int{}
 	for m := 0; m < p.nmacros; m++ {
 		fmt.Fprintf(&sb, "%%macro mac%d 0\n", m)
-		for k := 0; k < 1+r.Intn(3); k++ {
+		n := 1 + r.Intn(3)
+		for k := 0; k < n; k++ {
 			sb.WriteString("        " + simple() + "\n")
 		}
+		macroLen[fmt.Sprintf("mac%d", m)] = n
 		sb.WriteString("%endmacro\n")
 	}
 	// body lines; labels denote the line that follows them
@@ -87,6 +90,12 @@ func c05Source(p c05Params) string {
 	body = append(body, fmt.Sprintf("mov r%d, %s", p.nregs-1, lit()))
 	for i := 0; i < p.nin; i++ {
 		body = append(body, fmt.Sprintf("i2r %s, i%d", reg(), i))
+	}
+	if p.withData {
+		// the code takes the address of a variable by name and reads the cell it names
+		v := []string{"answer", "table", "last"}[r.Intn(3)]
+		a1, a2 := p.nregs-1, r.Intn(p.nregs)
+		body = append(body, fmt.Sprintf("rset r%d, rom:%s", a1, v), fmt.Sprintf("ro2rri r%d, r%d", a2, a1), fmt.Sprintf("r2o r%d, o0", a2))
 	}
 	if p.iomode != "" && p.nin > 0 {
 		body = append(body, fmt.Sprintf("mov %s, i%d", reg(), r.Intn(p.nin))) // at least one read whose opcode the I/O mode decides
@@ -134,7 +143,25 @@ func c05Source(p c05Params) string {
 	// labels placed past the last body line would denote nothing: the family keeps them inside
 	if p.withData {
 		// a data section with a one-cell and a three-cell variable: the ROM holds code then data
-		sb.WriteString("%endsection\n%section data1 .romdata\n        answer db 0x2a\n        table db 0x05, 0x06, 0x07\n%endsection\n%meta cpdef  cpu   romcode: prog, romdata: data1, execmode: ha\n")
+		// the repeated variable is sized so that code + number of variables and code + number of cells need
+		// different address widths (the ROM is sized from the cells)
+		L := 0
+		for _, l := range body {
+			if n, ok := macroLen[l]; ok {
+				L += n
+			} else {
+				L++
+			}
+		}
+		pow := 1
+		for pow < L+4 {
+			pow *= 2
+		}
+		rep := 1
+		for L+5+2*rep <= pow && rep < 12 {
+			rep++
+		}
+		fmt.Fprintf(&sb, "%%endsection\n%%section data1 .romdata\n        answer db 0x2a\n        table db 0x05, 0x06, 0x07\n        pad %d:db 0x0b, 0x0c\n        last db 0x11\n%%endsection\n%%meta cpdef  cpu   romcode: prog, romdata: data1, execmode: ha\n", rep)
 	} else {
 		sb.WriteString("%endsection\n%meta cpdef  cpu   romcode: prog, execmode: ha\n")
 	}
@@ -232,26 +259,7 @@ func C05(tier string) int {
 			rejections = append(rejections, fmt.Sprintf("#%d: %s", i, msg))
 			continue
 		}
-		var cps []string
-		var inLine, outLine, linkLine string
-		for _, line := range strings.Split(out, "\n") {
-			switch {
-			case strings.HasPrefix(line, "IN "):
-				inLine = strings.TrimPrefix(line, "IN ")
-			case strings.HasPrefix(line, "OUT "):
-				outLine = strings.TrimPrefix(line, "OUT ")
-			case strings.HasPrefix(line, "LINKS "):
-				linkLine = strings.Trim(strings.TrimPrefix(line, "LINKS "), "[]")
-			case strings.HasPrefix(line, "CP "):
-				kv := map[string]string{}
-				for _, f := range strings.Fields(line)[2:] {
-					if j := strings.IndexByte(f, '='); j > 0 {
-						kv[f[:j]] = f[j+1:]
-					}
-				}
-				cps = append(cps, fmt.Sprintf("%s:%s:%s:%s:%s:%s|%s|%s", kv["R"], kv["N"], kv["M"], kv["L"], kv["O"], kv["wordsize"], kv["ops"], kv["rom"]))
-			}
-		}
+		cps, inLine, outLine, linkLine := parseEmitted(out)
 		T := 2*p.nlines + 6
 		cfgs = append(cfgs, Config{Name: name, Func: "zzC05", Setup: func(in *symgo.Interp) { in.MaxUnwind = 400 },
 			Args: []Arg{I(p.rsize), S(strings.Join(cps, ";")), S(inLine), S(outLine), S(linkLine), S(text), I(T)}})
@@ -293,7 +301,7 @@ func C05(tier string) int {
 		Configs:  FilterConfigs(cfgs),
 		Assumptions: []string{
 			"translation validation per source: the real basm front-end (parser, all passes, matcher/chooser, requirement inference, Assembler2BondMachine) is RUN NATIVELY on each source of a generated family - it is not encoded (maps of interfaces, regexp-driven passes, a requirement engine of goroutines) - and the solver decides, per emitted machine, that simulating it (bondmachine.VM.Step, procbuilder.VM.Step and the opcodes' Simulate, executed symbolically) yields tick by tick the external outputs, and at the horizon the registers, of a direct interpretation of the source text, FOR ALL values of the external inputs. The program space is sampled; the input space is quantified",
-			"source family: one CP; romtext section; labels on their own lines (2-4 plus the entry label, several labels may share a line); entry directive; forward/backward j and jz; 0-2 macros without arguments, invoked 0 or more times; mov with decimal/0x/0b/0d literals below 32 (larger ones are rejected since the chooser takes rsets5), the real rset next to its mov alias, mov register-register, inc/dec/add/clr/nop, i2r/r2o; register sizes 8 and 16; 2-4 registers, 0-2 inputs, 1-2 outputs; one source in six has its entry label on a later instruction, one in six has two macro calls in a row, one in five has its entry directive after 1-3 instructions, one in four also has a ROM data section (a one-cell and a three-cell variable, not read by the code), one in three of those with inputs reads them with mov under a global or section I/O mode (the emitted opcode - i2rw exactly when the mode in force is sync - is an obligation)",
+			"source family: one CP; romtext section; labels on their own lines (2-4 plus the entry label, several labels may share a line); entry directive; forward/backward j and jz; 0-2 macros without arguments, invoked 0 or more times; mov with decimal/0x/0b/0d literals below 32 (larger ones are rejected since the chooser takes rsets5), the real rset next to its mov alias, mov register-register, inc/dec/add/clr/nop, i2r/r2o; register sizes 8 and 16; 2-4 registers, 0-2 inputs, 1-2 outputs; one source in six has its entry label on a later instruction, one in six has two macro calls in a row, one in five has its entry directive after 1-3 instructions, one in four also has a ROM data section (one-cell, three-cell and repeated variables; the code takes the address of one by name and reads the cell), one in three of those with inputs reads them with mov under a global or section I/O mode (the emitted opcode - i2rw exactly when the mode in force is sync - is an obligation)",
 			"reference: the documented meaning of the source form (a label denotes the instruction after it; execution starts at the entry label; a macro call stands for its body; mov loads the value the literal denotes or copies a register; one instruction per tick); the per-instruction effect is the ISA's (inc/dec/add wrap at the register size)",
 			"environment: external inputs constant and valid from tick 0, outputs acknowledged at once; horizon 2*lines+6 ticks from reset (registers zero)",
 			"second family: two CPs joined by two handshaked links whose output and input indices differ (all four index pairings, consuming endpoint declared first or second), straight-line programs that park in a self-loop, one symbolic external input; compared at the horizon (60 ticks) with a reference in which every CP's source is interpreted on its own and a link carries the value its producer wrote to its consumer: registers of both CPs and the external output",
@@ -334,7 +342,7 @@ func parseEmitted(out string) (cps []string, inLine, outLine, linkLine string) {
 					kv[f[:j]] = f[j+1:]
 				}
 			}
-			cps = append(cps, fmt.Sprintf("%s:%s:%s:%s:%s:%s|%s|%s|%s", kv["R"], kv["N"], kv["M"], kv["L"], kv["O"], kv["wordsize"], kv["ops"], kv["rom"], kv["name"]))
+			cps = append(cps, fmt.Sprintf("%s:%s:%s:%s:%s:%s|%s|%s|%s|%s", kv["R"], kv["N"], kv["M"], kv["L"], kv["O"], kv["wordsize"], kv["ops"], kv["rom"], kv["name"], kv["vars"]))
 		}
 	}
 	return
